@@ -786,6 +786,12 @@ def model_check(ctx, ext, known, quick):
             ("triples", {"monitors": ["M1"], "cleaners": ["C1"], "levels": {"M1": ["pm"]}, "crash": ["running", "shutdown"],
                          "ccrash": True, "after": True, "reach": True}),
             ("cleaners2", {"cleaners": ["C1", "C2"], "crash": ALL_PHASES, "ccrash": True}),
+            # one behaviour per reachable pair of positions of two cleaners (incl. refusal tails and crashes), for the replay
+            ("cleaners2_reach", {"cleaners": ["C1", "C2"], "crash": ["running"], "ccrash": True, "after": True,
+                                 "drop": False, "reach": True}),
+            # a monitor reading while two cleaners race (one of them is refused)
+            ("mon_cleaners2", {"monitors": ["M1"], "cleaners": ["C1", "C2"], "levels": {"M1": ["pm", "cal"]},
+                               "crash": ["running"], "ccrash": False, "after": True, "drop": False}),
             # 3 and 4 concurrent cleaners: random behaviours (TLC -simulate), the exhaustive instances are too large
             ("cleaners3", {"cleaners": ["C1", "C2", "C3"], "crash": ["running"], "ccrash": True, "after": True,
                            "drop": False, "simulate": "num=3000"}),
@@ -935,7 +941,7 @@ def run(ctx):
     nruns = node_level(ctx) + fruns      # judged by the property layer only (no counterpart in ProcessState.tla)
     ctx.evaluations += len(runs) + len(nruns)
     ctx.distinct += len({json.dumps(r["records"], sort_keys=True) for r in runs + nruns})
-    refusal_coverage(ctx, [r for r in runs if r.get("kind") == "grid"], fruns)
+    vacuous = refusal_coverage(ctx, [r for r in runs if r.get("kind") == "grid"], fruns)
     for r in [r for r in runs + nruns if r["hang"]][:3]:
         ctx.report(vp.Violation(f"a real process hung during the stepped replay: {r['hang']}",
                                 replay={"schedule": r["schedule"], "levels": r["levels"],
@@ -1002,6 +1008,8 @@ def run(ctx):
     if drift_any:
         ctx.note("DRIFT: the implementation-shaped model does not match this build step by step; only the "
                  "property-layer verdicts on real traces are claimed")
+    if vacuous:
+        raise vp.ToolError(vacuous)
     if not quick:
         selftest(ctx, ext, runs)
         strace_check(ctx)
@@ -1148,11 +1156,12 @@ def refusal_coverage(ctx, gruns, fruns):
     if gruns:
         for v in ("OwnedByAnother", "BeingCleanedUp", "DoesNotExist"):
             if not res.get(v):
-                raise vp.ToolError(f"vacuous: no real cleaner was refused with {v} in the two-cleaner grid")
+                return f"vacuous: no real cleaner was refused with {v} in the two-cleaner grid"
         if not tails or not asked:
-            raise vp.ToolError("vacuous: no lost lock race / no verdict while a cleaner was busy in the two-cleaner grid")
+            return "vacuous: no lost lock race / no verdict while a cleaner was busy in the two-cleaner grid"
     if fruns and not injected:
-        raise vp.ToolError("vacuous: no failure was injected into any cleaner attempt")
+        return "vacuous: no failure was injected into any cleaner attempt"
+    return None
 
 
 def free_run(ctx, tag, rng):
@@ -1318,6 +1327,33 @@ def selftest(ctx, ext, runs):
     st = {"corrupted_verdict_fails_property_invariant": bool(failed),
           "corrupted_verdict_rejected_by_state_layer": not sv.accepted,
           "dropped_call_rejected_by_state_layer": not sv2.accepted}
+    # a refused cleaner that (allegedly) removed a file: one inserted unlink record before its result
+    gbase = [r for r in runs if r.get("kind") == "grid" and not r["hang"]
+             and any(a["k"] == "ev" and a["ev"] == "cresult" and a["v"] == "OwnedByAnother" for a in r["records"])]
+    if gbase:
+        r3 = copy.deepcopy(gbase[0])
+        i = [i for i, a in enumerate(r3["records"]) if a["k"] == "ev" and a["ev"] == "cresult" and a["v"] == "OwnedByAnother"][0]
+        fake = blank("sys", r3["records"][i]["p"])
+        fake.update(op="unlink", f="state", obs="ok")
+        r3["records"].insert(i, fake)
+        _, failed3 = validate_prop(ctx, [r3], "selftest_refused", [])
+        sv3, _ = validate_state(ctx, ext, [r3], "selftest_refused")
+        st["inserted_unlink_of_refused_cleaner_fails_RefusedChangesNothing"] = \
+            any(inv == "RefusedChangesNothing" for inv, _ in failed3)
+        st["inserted_unlink_rejected_by_state_layer"] = not sv3.accepted
+        # ... and a monitor that (allegedly) reported "absent" while the winner had not begun its drop
+        r4 = copy.deepcopy(gbase[0])
+        own = [i for i, a in enumerate(r4["records"]) if a["k"] == "ev" and a["ev"] == "cresult" and a["v"] == "Ok"]
+        vi = [i for i, a in enumerate(r4["records"]) if a["k"] == "ev" and a["ev"] == "verdict" and a["lv"] == "pm"
+              and own and i > own[0]]
+        dropb = [i for i, a in enumerate(r4["records"]) if a["k"] == "ev" and a["ev"] == "cdrop_begin"]
+        if vi and (not dropb or vi[0] < dropb[0]):
+            r4["records"][vi[0]]["v"] = "DoesNotExist"
+            _, failed4 = validate_prop(ctx, [r4], "selftest_vanished", [])
+            st["corrupted_absent_verdict_fails_AbsentOnlyAfterCleanup"] = \
+                any(inv == "AbsentOnlyAfterCleanup" for inv, _ in failed4)
+    else:
+        st["refused_cleaner_selftest"] = False
     ctx.coverage["selftest"] = st
     if not all(st.values()):
         raise vp.ToolError(f"binding self-test failed: {st}")
@@ -1341,7 +1377,13 @@ def replay(ctx, path):
     body = json.load(open(path))
     print(json.dumps({k: body.get(k) for k in ("what", "signature", "schedule", "levels", "real_interleaving")}, indent=1))
     sched = body.get("model_schedule") or body.get("schedule")
-    if sched and body.get("levels") is not None and isinstance(sched[0], list):
+    if body.get("kind") in ("grid", "fault") and not body.get("model_schedule"):
+        vp.cargo_build(["drv-procstate"])
+        rr = (grid_run if body["kind"] == "grid" else fault_run)(ctx, "replay", *body["schedule"])
+        print("re-executed on the current tree:")
+        print(" ", " ".join(describe(rr)))
+        print("  answers:", rr["answers"], "hang:", rr["hang"])
+    elif sched and body.get("levels") is not None and isinstance(sched[0], list):
         vp.cargo_build(["drv-procstate"])
         lv = {m: (l if l != "node" else "cal") for m, l in body["levels"].items()}
         sched = [e for e in sched if e[1] not in ("scandir", "stat")]
